@@ -325,14 +325,20 @@ def run(case, out):
                              {"text": text, "token": t, "slice": src, "slice_tokens": again[:5], "offsets": [sc, ec]})
                     return
                 # "exactly": a character at either end that can be dropped without changing the token is not part
-                # of the token's source text (stemmers may map a shorter word to the same stem: left end only there)
-                if len(src) > 1 and name not in STRIPPING:
-                    ends = [("left", src[1:])] + ([("right", src[:-1])] if name in EXACT else [])
-                    for side, shorter in ends:
+                # of the token's source text
+                if len(src) > 1 and name in EXACT:
+                    for side, shorter in (("left", src[1:]), ("right", src[:-1])):
                         if [x[0] for x in toks(ana, shorter, "index", removestops=False)] == [t]:
                             out.fail("c17.offsets_wider_than_token:%s" % name,
                                      {"text": text, "token": t, "slice": src, "droppable_end": side, "offsets": [sc, ec]})
                             return
+                elif name == "stemming" or name.startswith("lang_"):
+                    # stemmers map shorter words to the same stem (fi: "BB" and "B" -> "b"), so droppability proves
+                    # nothing there: the slice must just begin and end with a word character
+                    if not (re.match(r"\w", src[0], re.U) and re.match(r"\w", src[-1], re.U)):
+                        out.fail("c17.offsets_wider_than_token:%s" % name,
+                                 {"text": text, "token": t, "slice": src, "droppable_end": "non-word character", "offsets": [sc, ec]})
+                        return
         # (5) highlights
         if name not in NGRAMS | {"metaphone", "shingle", "biword"}:
             target_terms = [t for t in sorted(set(t[0] for t in itoks)) if t][:3]
